@@ -59,6 +59,33 @@ CLAIMS = {
     "Row allocations are assumed to request >= 1 row (condim in {1,3,4,6}).",
     "design_ref": "DESIGN.md 3 (C16), 9.1",
   },
+  "C28": {
+    "text": "Edge discovery, island._tree_edges (the real kernel, dense and sparse Jacobian layout): tree_tree is modified only by "
+    "atomic_max with value 1 into the thread's own world and only by live rows (efcid < min(njmax, nefc)); every cross-tree mark at "
+    "(i, j) comes with the mark at (j, i) under the same condition (symmetric adjacency), in the closed-form branches and in the "
+    "generic Jacobian-row scan; a contact row marks exactly the pair of trees of its two geoms' bodies with static bodies dropped "
+    "(cross edge in both directions, self edge of the dynamic tree, nothing for two static bodies) and no other tree; DOF "
+    "friction-loss and joint-limit rows mark the self edge of their tree.",
+    "note": _BASE + "NOT covered: that _flood_fill's labels are the connected components of the marked graph numbered by smallest tree "
+    "(a reachability property of a stack-based traversal), that compute_island_mapping's dof / constraint maps are mutually inverse "
+    "permutations consistent with the per-island counts, and which trees the generic scan marks for tendon / joint-equality / flex "
+    "rows (only its symmetry is proved).",
+    "design_ref": "DESIGN.md 3 (C28), 12.12",
+  },
+  "C29": {
+    "text": "The local, per-tree rules of the statement as contracts on the real kernels: sleep._sweep_awake_trees (run against an "
+    "opaque contract of _tree_can_sleep) leaves sleeping trees alone, moves an awake quiet tree's countdown one step towards -1 "
+    "(never past it) and resets a disturbed tree to K_AWAKE_VAL, touching no other cell -- so 'ready to sleep' needs MJ_MINAWAKE "
+    "consecutive quiet sweeps; _tree_can_sleep refuses for policy NEVER; _check_island_can_sleep vetoes an island exactly for its "
+    "trees that are not ready; _update_sleep_trees / _update_sleep_bodies derive the awake flags from tree_asleep; _wake_kernel "
+    "calls _wake_tree exactly for a sleeping tree whose awake flag is set or that may not sleep at zero tolerance, with "
+    "K_AWAKE_VAL; a DOF with zero acceleration keeps its velocity and a hinge / slide coordinate or free position with zero "
+    "velocity does not move.",
+    "note": _BASE + "NOT covered: agreement of the awake/asleep evolution with MuJoCo's; _build_cycles (cycle construction and the "
+    "zeroing of velocities of trees put to sleep) and _wake_tree's walk along a cycle; the contact / equality / tendon wake "
+    "triggers (their order dependence is the C11 known finding D11); renormalisation of frozen quaternions.",
+    "design_ref": "DESIGN.md 3 (C29), 12.12",
+  },
   "C30": {
     "text": "Contracts on the real history-buffer functions, stated over the logical view L(i), V(i) of a circular buffer: "
     "_history_physical_index maps [0,n) injectively into [0,n) with the newest sample at the cursor; _history_find_index (while loop "
@@ -74,6 +101,18 @@ CLAIMS = {
     "DESIGN.md 7: recorded, not repaired, and outside what this check claims). Not decided: cubic interpolation, vector-valued sensor "
     "buffers and sensor intervals, out-of-order inserts, termination of the binary search.",
     "design_ref": "DESIGN.md 3 (C30), 12.5",
+  },
+  "C34": {
+    "text": "Contracts on the real functions of ray.py: _ray_eliminate is proved EQUAL to the statement's eligibility predicate "
+    "(excluded body, invisible geom or material, static geoms not wanted, group mask with the geom's clamped group switched off); "
+    "_ray_quad (a > 0) returns -1 or a non-negative root of a*x^2+2*b*x+c, the smallest non-negative one, and -1 with a real "
+    "discriminant means both roots are negative; ray_sphere, run against that contract, returns a point on the sphere with the unit "
+    "outward normal there (so, with the quad contract, the nearest intersection along the ray); ray_plane returns a point on the "
+    "plane inside the rendered rectangle, only for rays heading to the front face, with the plane's z axis as normal.",
+    "note": _BASE + "Exact over the reals; ray direction non-zero. NOT covered: agreement with mujoco.mj_ray (numeric oracle), the "
+    "capsule / ellipsoid / cylinder / box / mesh / height-field / flex intersections, the nearest-hit reduction over geoms in _ray "
+    "(tile reduction) and the BVH path (wp.bvh_* intrinsics), and the MJ_MINVAL slivers of _ray_quad and ray_plane.",
+    "design_ref": "DESIGN.md 3 (C34), 12.12",
   },
   "C36": {
     "text": "A result can depend on process history only through state that outlives a call. Over the real source of every module: "
